@@ -16,7 +16,8 @@ for key, info in last['failures'].items():
         witness = ex.get('query') or ex.get('timex') or ex.get('string') or ex.get('witness') or ''
         kf['findings'].append({'property': pid, 'key': key, 'status': 'open',
                                'description': desc.format(key=key, example=witness),
-                               'witness': {k: v for k, v in ex.items() if k not in ('choice_vector', 'finding_key')}})
+                               'witness': ({k: v for k, v in ex.items() if k not in ('choice_vector', 'finding_key')}
+                                           if os.environ.get('FINDINGS_NO_WITNESS') != '1' else {'query': witness})})
         n += 1
 json.dump(kf, open(kf_path, 'w'), indent=1, ensure_ascii=False)
 print('added', n, 'findings for', pid)
